@@ -1,6 +1,7 @@
 package harness
 
 import (
+	"github.com/KevoDB/kevo/pkg/replication"
 	"encoding/json"
 	"fmt"
 	"path/filepath"
@@ -23,12 +24,14 @@ type c06Scenario struct {
 	Pre     []string // sequential prefix ops (run by the main thread before the clients start); "bg" = let background run
 	Clients []c06Client
 	Env     map[string]int
+	Primary bool // a replication primary is attached to the log; the last sequence it reports is sampled after every client write
 }
 
 type c06Obs struct {
 	Hist    []kvOp
 	Initial map[string]string
 	Final   map[string]string
+	Reported []uint64      // samples of the last sequence the attached replication primary reports, in time order
 	WalCnt  map[string]int // "key=val" -> number of log entries
 	WalSeq  map[string][]uint64 // "key=val" -> stamps of its log entries
 	Pre     []kvOp              // the sequential prefix (before every client operation)
@@ -44,6 +47,18 @@ func c06Run(sc c06Scenario) any {
 		return obs
 	}
 	rec := &recorder{}
+	var prim *replication.Primary
+	if sc.Primary {
+		if prim, err = replication.NewPrimary(r.Eng.GetWAL(), nil); err != nil {
+			obs.Err = "primary: " + err.Error()
+			return obs
+		}
+	}
+	sample := func() {
+		if prim != nil {
+			obs.Reported = append(obs.Reported, prim.GetLastSequence())
+		}
+	}
 	exec := func(client int, op string) {
 		p := strings.Split(op, ":")
 		switch p[0] {
@@ -53,6 +68,7 @@ func c06Run(sc c06Scenario) any {
 					o.Err = err.Error()
 				}
 			})
+			sample()
 		case "del":
 			rec.do(client, "del", p[1], "", func(o *kvOp) {
 				if err := r.Eng.Delete([]byte(p[1])); err != nil {
@@ -109,9 +125,13 @@ func c06Run(sc c06Scenario) any {
 	}
 	// let the background work the operations started run to completion, then read
 	vsched.Quiesce()
+	sample()
 	// final reads are part of the history (they come after everything)
 	for _, k := range []string{"a", "b"} {
 		exec(0, "get:"+k)
+	}
+	if prim != nil {
+		prim.Close()
 	}
 	obs.Hist = rec.Ops
 	// every acknowledged write is in the log exactly once, failed ones not at all
@@ -184,6 +204,8 @@ func c06Defs() []c06Scenario {
 		{Name: "tiny-burst", Cfg: "tiny", Clients: []c06Client{{"put:a:1", "put:b:2", "put:b:3", "put:b:4", "get:a"}}}, // the read goes to the oldest table of the burst
 		{Name: "flush-vs-put-get", Cfg: "big", Pre: []string{"put:a:0", "switch"}, Clients: []c06Client{{"flush"}, {"put:a:1"}, {"get:a"}}},
 		{Name: "flush-active-vs-put", Cfg: "big", Pre: []string{"put:a:0"}, Clients: []c06Client{{"flush"}, {"put:a:1", "get:a"}}},
+		// the same with a replication primary attached to the log (C08: the last sequence it reports never decreases)
+		{Name: "flush-active-vs-put-primary", Cfg: "big", Pre: []string{"put:a:0"}, Clients: []c06Client{{"flush"}, {"put:a:1"}}, Primary: true},
 		// two writes can fall into any window of a rotation, a third comes after it
 		{Name: "rotate-vs-puts", Cfg: "big", Pre: []string{"put:a:0"}, Clients: []c06Client{{"flush"}, {"put:a:1", "put:a:2"}, {"put:a:3", "get:a"}}},
 		{Name: "compact-vs-put-get", Cfg: "tiny2", Pre: []string{"put:a:0", "bg", "put:b:0", "bg"}, Clients: []c06Client{{"compact"}, {"put:a:1", "get:b"}}},
@@ -220,6 +242,11 @@ func c08ConcCheck(sc c06Scenario) func(s *vsched.Sched, o any) (string, string) 
 		if ob.Err != "" {
 			return key, ""
 		}
+		for i := 1; i < len(ob.Reported); i++ {
+			if ob.Reported[i] < ob.Reported[i-1] {
+				return key, fmt.Sprintf("reported-last-sequence-decreased\nthe replication primary reported last sequence %d and later %d (samples after each client write and at the end: %v)", ob.Reported[i-1], ob.Reported[i], ob.Reported)
+			}
+		}
 		for _, x := range ws {
 			for _, y := range ws {
 				if x.op.Ret < y.op.Call && x.seq >= y.seq {
@@ -236,7 +263,7 @@ func c08ConcScenarios() []*explore.Scenario {
 	for _, d := range c06Defs() {
 		d := d
 		switch d.Name {
-		case "put-vs-put", "tiny-put-vs-put", "flush-active-vs-put", "rotate-vs-puts":
+		case "put-vs-put", "tiny-put-vs-put", "flush-active-vs-put", "rotate-vs-puts", "flush-active-vs-put-primary":
 			out = append(out, &explore.Scenario{Name: d.Name, MaxSteps: 3_000_000, EnvBudgets: d.Env,
 				Body:  func() any { return c06Run(d) },
 				Check: c08ConcCheck(d)})
@@ -249,6 +276,9 @@ func c06Scenarios() []*explore.Scenario {
 	var out []*explore.Scenario
 	for _, d := range c06Defs() {
 		d := d
+		if d.Primary {
+			continue // C08's scenario
+		}
 		out = append(out, &explore.Scenario{Name: d.Name, MaxSteps: 3_000_000, EnvBudgets: d.Env,
 			Body:  func() any { return c06Run(d) },
 			Check: c06Check(d)})
@@ -269,6 +299,9 @@ func init() {
 				b = 3
 			}
 			for _, d := range c06Defs() {
+				if d.Primary {
+					continue
+				}
 				n := 4
 				if strings.HasPrefix(d.Name, "tiny") || strings.Contains(d.Name, "flush") || strings.Contains(d.Name, "compact") {
 					n = 8
